@@ -46,14 +46,19 @@ def gen_grad(rng, pool, ch, want_first, block_len):
         delay = rng.choice([1e-4, 2e-4])
     aligned = rng.random() < (0.85 if last != 0 else 0.4)
     n = int(round((block_len - delay) / H.RASTER)) if aligned else rng.choice([20, 30, 50])
+    if not aligned and rng.random() < 0.35:
+        # ends one or two raster steps before the block end (the alignment tolerance must not grow with the block length)
+        n = int(round((block_len - delay) / H.RASTER)) - rng.choice([1, 2])
     n = max(4, n)
+    if n > 5000:
+        kind = 0.0          # very long gradients only as extended trapezoids (three corners)
     if kind < 0.75:
         return pool.ext(ch, first, last, delay=delay, dur=n * H.RASTER)
     return pool.arb(ch, first, last, delay=delay, n=n)
 
 
 def gen_block(rng, pool, prev_last):
-    block_len = rng.choice([6e-4, 8e-4, 1e-3])
+    block_len = rng.choice([6e-4, 8e-4, 1e-3, 6e-4, 8e-4, 1e-3, 1.2, 2.5])
     evs = []
     for ci, ch in enumerate('xyz'):
         if rng.random() < (0.45 if prev_last[ci] == 0 else 0.08):
@@ -183,6 +188,8 @@ def gen_history(rng, tier):
             i = tw.on.next_free_block_ID + rng.choice([1, 2, 5])
             evs = gen_block(rng, pool, prev_last)
             kind = 'setgap'
+        if rng.random() < 0.2:
+            evs = grads_by_id(tw, evs)
         try:
             exp = expected(tw.off, i, evs)
         except Exception as e:  # noqa: BLE001
@@ -203,6 +210,24 @@ def gen_history(rng, tier):
                 gl = tw.on.grad_library
                 prev_last = [float(gl.data[ev[2 + c]][5]) if ev[2 + c] and gl.type[ev[2 + c]] == 'g' else 0.0 for c in range(3)]
     return tw, kinds, diffs
+
+
+def grads_by_id(tw, evs):
+    """pre-register the arbitrary / extended gradients of a block (on both twins, recorded as register operations) and
+    pass them through the returned ids, as `g.id, g.shape_IDs = seq.register_grad_event(g)` does"""
+    out = []
+    for e in evs:
+        if getattr(e, 'type', None) == 'grad':
+            rec = tw.register(e)
+            if rec['outcome'][0] == 'ok':
+                v = rec['outcome'][1]
+                e2 = copy.deepcopy(e)
+                e2.id = int(v[0])
+                e2.shape_IDs = [int(x) for x in v[1]]
+                out.append(e2)
+                continue
+        out.append(e)
+    return out
 
 
 def brief(e):
